@@ -52,4 +52,20 @@ CHECKS.update({
         note="Three genuine defects found by this monitor were repaired in /repo (fix: commits 6341441, e4a979f, 36b531d).",
     ),
 })
+CHECKS.update({
+    "C02": dict(
+        level="exploration",
+        technique="runtime monitor: step-wise conformance of every observed optimizer transition to an independent float64 reference transition model with running floating-point error bounds",
+        design_ref="DESIGN.md section 4 C02, section 2.4",
+        text="Every transition (state_t, grads_t) -> (update_t, state_t+1) of the real distributed_shampoo (replicated-jit, pmap with int16/int8 quantised state, sharded on a 2-device mesh; x64 on, float32 trees) is checked stage by stage against a NumPy float64 model written from the documentation and applied to the real pre-state: statistics recurrence (entrywise gamma_k bound), acceptance gate and residual of the stored root against the stored statistics, update, both momenta, grafting accumulator, count. ~250 random (config, tree, history, mode) cases x 6 steps in the quick tier (~4000 x 6-12 thorough).",
+        note="Trusted: the reference model (vmon/refmodels/ds_ref.py) as the reading of the documentation; NumPy float64. Differences below the error bound (e.g. the 1e-25 guard) are invisible; compression/FD/LOBPCG representations are covered by C05/C09/C10 instead.",
+    ),
+    "C03": dict(
+        level="fault_enumeration",
+        technique="runtime monitor over fault-injected histories: offline acceptance-gate checker on bitwise state diffs and reported errors, all fault words up to length T enumerated per configuration",
+        design_ref="DESIGN.md section 4 C03",
+        text="For each of 192 configurations (threshold x epsilon incl. 0 x Newton/eigh x interval x jit/pmap-quantised/sharded x x64 on/off) every word of length 3 (thorough: 5, <=3 faults) over {normal, zero, tiny, huge, overflow, NaN, Inf} gradients is replayed through the real compiled update; after every step each stored preconditioner must be bit-identical to before or be installed on a refresh step with a finite reported error strictly below the threshold, must be finite, and moderate histories must give finite updates. 65k words / 77k steps quick, ~185k NaN rejections and ~17k threshold rejections observed.",
+        note="Exhaustive over the stated alphabet/length/configuration grid only; one fixed two-leaf tree.",
+    ),
+})
 NOT_APPLICABLE = {}
